@@ -228,8 +228,12 @@ impl Group for SchedGroup {
                             settle().await;
                         }
                         let head = format!("{}{}", status(&ctl), n.delta().await);
-                        let (a, b) = n.session.verif_table_keys().await;
-                        let (bf, bl) = n.session.verif_buffer_state().await;
+                        // the observers take the session's locks: a lock that is never released must not hang the harness
+                        let (a, b) = tokio::time::timeout(WATCHDOG, n.session.verif_table_keys()).await.unwrap_or((vec![9999], vec![9999]));
+                        let (bf, bl) = match tokio::time::timeout(WATCHDOG, n.session.verif_buffer_state()).await {
+                            Ok(x) => x,
+                            Err(_) => { out.oracle.push(OracleFail { sig: "lock_never_released/session_concurrent".into(), detail: "the session's buffer lock is still held after every task was released: some task is stuck inside write_frame".into() }); (false, 9999) }
+                        };
                         let fmt = |v: &Vec<u32>| v.iter().map(|x| x.to_string()).collect::<Vec<_>>().join(",");
                         let mut objs: Vec<(u32, String)> = vec![];
                         {
@@ -336,7 +340,7 @@ async fn oracles(out: &mut Outcome, ctl: &Arc<Mutex<Ctl>>, n: &mut Node, progs: 
         let want: Vec<(u8, u32, usize)> = want.into_iter().filter(|w| !(w.0 == 2 && w.2 == 0)).collect();
         // own-stream data: the id is whatever the open returned
         let want: Vec<(u8, u32, usize)> = want.iter().enumerate().map(|(i, w)| if w.1 == u32::MAX { (w.0, mine.get(i).map(|m| m.1).unwrap_or(0), w.2) } else { *w }).collect();
-        let buffered = n.session.verif_buffer_state().await.1 > 0;
+        let buffered = tokio::time::timeout(WATCHDOG, n.session.verif_buffer_state()).await.map(|x| x.1 > 0).unwrap_or(true);
         if all_ok && no_failure && !buffered && !closed {
             if mine != want {
                 out.oracle.push(OracleFail { sig: "task_frames_lost_or_reordered/wire".into(), detail: format!("task {tid} submitted {:?} (all ok), the wire carries {:?}", want, mine) });
